@@ -329,7 +329,7 @@ func ruleStringBuffers(c *Ctx) {
 }
 
 // C04.needcopy — the copy decision can only be raised by the validator, never cleared.
-var reNeedCopy = regexp.MustCompile(`^\(\((0|L:src_length[^!|&]*)!=P:dstLength\)\|\|P:needCopy\)$`)
+var reNeedCopy = regexp.MustCompile(`^\(\(L:src_length@_parse_string_validate_only#\d+!=P:dstLength@_parse_string_validate_only#\d+\)\|\|P:needCopy\)$`)
 
 func ruleNeedCopy(c *Ctx) {
 	p := c.G()
@@ -360,7 +360,7 @@ func ruleNeedCopy(c *Ctx) {
 		}
 		v, _ := st.Val.SingleAtom()
 		// (P:needCopy || (src_length != *dstLength)) in canonical commutative order; src_length is the local the kernel
-		// fills through its third pointer argument (the symbolic engine sees its initial 0)
+		// fills through its third pointer argument; both operands are the values the kernel left behind its pointer arguments
 		if !reNeedCopy.MatchString(v) {
 			okAll = false
 			why = v
